@@ -66,6 +66,10 @@ ComposeExpand(p, sh4) ==
   \* an empty unsafe operand right before the redactable; Go-syntax printing of typed containers of redactables
   \cup {Case("Sprintf", Fs \o Fv, <<TStr(8, <<>>), TRStr(2, r)>>, <<>>), Case("Sprint", <<>>, <<TStr(8, <<>>), TRStr(2, r)>>, <<>>)}
   \cup {Case("Sprintf", FsharpV, <<RShape(sh, TRStr(2, r))>>, <<>>) : sh \in {"tslice", "tmapkey", "slice", "structE"}}
+  \* a RedactableBytes operand directly followed / preceded by an unsafe one: where the redactable ends in an envelope the
+  \* buffer continues that envelope (the operand itself must not change, nor share memory with the result)
+  \cup {Case("Sprintf", Fv \o Fv, <<TRBytes(2, r), TStr(9, P(9))>>, <<>>), Case("Sprint", <<>>, <<TRBytes(2, r), TStr(9, P(9))>>, <<>>),
+        Case("Sprintf", Fv \o Fv, <<TStr(9, P(9)), TRBytes(2, r)>>, <<>>), Case("Sprintf", Fv \o Fd, <<TRBytes(2, r), TInt(9, 5)>>, <<>>)}
   \* the very same container twice in one call (same object, not an equal copy)
   \cup {Case("Sprintf", Fv \o <<124>> \o Fv, <<x, x>>, <<>>) : x \in {TSlice(30, <<TRStr(2, r), KeyR>>), TMap(30, <<KeyR, TRStr(2, r)>>), TTSlice(30, <<TRStr(2, r), KeyR>>)}}
   \cup {Case("Sprint", <<>>, <<TSlice(31, <<TSlice(30, <<TRStr(2, r)>>), TSlice(30, <<TRStr(2, r)>>)>>)>>, <<>>)}
@@ -115,7 +119,9 @@ C08Holds(k, r) ==
         \E i \in 0..(Len(out) - Len(r0)) : SubSeq(out, i + 1, i + Len(r0)) = r0
   /\ (Len(k.ts) = 2 /\ k.ts[1] = k.ts[2] /\ k.ts[1].k \in {"slice", "map", "tslice"}) =>
         \E half \in 1..Len(out) : out = SubSeq(out, 1, half) \o <<124>> \o SubSeq(out, 1, half)
-  /\ (Len(k.ts) = 2 /\ k.ts[1].k = "string") => out = k.ts[2].b                   \* the empty operand adds nothing
+  /\ (Len(k.ts) = 2 /\ k.ts[1].k = "string" /\ k.ts[1].b = <<>>) => out = k.ts[2].b     \* the empty operand adds nothing
+  /\ (Len(k.ts) = 2 /\ k.ts[1].k = "rbytes" /\ k.ts[2].k = "string") => Strip(out) = Strip(k.ts[1].b) \o k.ts[2].b
+  /\ (Len(k.ts) = 2 /\ k.ts[2].k = "rbytes" /\ k.ts[1].k = "string") => Strip(out) = k.ts[1].b \o Strip(k.ts[2].b)
   /\ (Len(k.ts) = 2 /\ k.ts[1].k = "rstring") =>
                         /\ out = <<120>> \o k.ts[1].b \o <<121>> \o k.ts[2].b \o <<122>>
                         /\ Redact(out) = <<120>> \o Redact(k.ts[1].b) \o <<121>> \o Redact(k.ts[2].b) \o <<122>>
